@@ -24,6 +24,8 @@ class UsbBackend(object):
     def fault(self, name):
         i = self.ncall
         self.ncall += 1
+        if getattr(self, 'unplugged', False):
+            raise U.USBErrorNoDevice()       # the device is gone: every libusb call fails with LIBUSB_ERROR_NO_DEVICE
         f = self.plan.get(i)
         if f is None:
             # faults addressed by call name: {'on': 'release', 'nth': 0, 'err': ...}
@@ -36,6 +38,8 @@ class UsbBackend(object):
                     raise U.ERRORS[g['err']]()
         if f is not None and (f.get('on') in (None, name)):
             del self.plan[i]
+            if f.get('unplug'):
+                self.unplugged = True
             self.fired.append((i, name, f['err']))
             self.run.link.faults_fired.append((i, 'usb_err_' + f['err'], name))
             raise U.ERRORS[f['err']]()
